@@ -141,8 +141,22 @@ def chain_writers(chk, F, rule, cfg):
     chk.ob(rule, 'the instance\'s chain is only touched by constructors, make_ref/make_mut and teardown', set(users) <= allow, config=cfg, site='field:value_chain', what='users of Unimock.value_chain %s' % sorted(set(users) - allow), found=users)
     mm = F.method('Unimock', 'make_mut')
     chk.ob(rule, 'make_mut (which releases earlier values) needs exclusive access', mm.locals[1]['ty'].startswith('&mut'), config=cfg, fn=mm, site='make_mut', what='make_mut receiver %s' % mm.locals[1]['ty'], found=mm.locals[1]['ty'])
-    pvm = F.fn('value_chain::ValueChain::push_value_mut')
-    chk.ob(rule, 'push_value_mut needs exclusive access', pvm.locals[1]['ty'].startswith('&mut'), config=cfg, fn=pvm, site='push_value_mut', what='receiver %s' % pvm.locals[1]['ty'], found=pvm.locals[1]['ty'])
+    # whichever function of the chain replaces its root (the reference tree's `push_value_mut`) needs exclusive access
+    nrep = 0
+    for pvm in sorted(F.fns.values(), key=lambda f: f.defp):
+        if pvm.kind != 'assoc' or (pvm.impl_of or {}).get('self_adt') != 'value_chain::ValueChain' or pvm.arg_count < 1 or (pvm.impl_of or {}).get('trait'):
+            continue
+        replaces = False
+        for p in symex.Interp(F).run(pvm):
+            for e in p.effects:
+                if e.kind == 'write' and e.data[0][1][-1:] == (('f', 'root'),) and e.data[0][0] == ('ptr', ('param', 0, 1)):
+                    replaces = True
+                if e.kind == 'call' and re.search(r'core::mem::(replace|take|swap)$|OnceCell(<T>)?::take$', e.data[1]) and e.data[2] and field_path(e.data[2][0]) == (('param', 0, 1), ['root']):
+                    replaces = True
+        if replaces:
+            nrep += 1
+            chk.ob(rule, 'push_value_mut needs exclusive access', pvm.locals[1]['ty'].startswith('&mut'), config=cfg, fn=pvm, site='push_value_mut', what='receiver %s' % pvm.locals[1]['ty'], found=pvm.locals[1]['ty'])
+    chk.floor(rule, 'functions of the chain that replace its root', nrep, 1, config=cfg)
 
 
 HELPER_OK = re.compile(r'OnceCell(<T>)?::(set|try_insert|get_or_init|get_or_try_init|get|get_mut)$')
